@@ -13,7 +13,7 @@ import (
 	"verif/internal/ref"
 )
 
-func V(p s2.Point) ref.V  { return ref.V{p.X, p.Y, p.Z} }
+func V(p s2.Point) ref.V { return ref.V{p.X, p.Y, p.Z} }
 func P(v ref.V) s2.Point { return s2.Point{Vector: r3.Vector{X: v[0], Y: v[1], Z: v[2]}} }
 
 func Vs(ps []s2.Point) []ref.V {
